@@ -79,11 +79,8 @@ class Session:
             self.interp.nograd = 0
             return Outcome('raises', exc=e)
         except DomainViolation as e:
-            loc = self.interp.loc()
-            path = tuple(self.interp.callpath())
             del self.interp.stack[depth:]
             self.interp.nograd = 0
-            e.loc, e.path = loc, path
             return Outcome('violation', exc=e)
         except AnalysisError as e:
             # annotate with the location and re-raise
